@@ -305,3 +305,10 @@ PROPS['C04'].update(run_files=['Tie.v', 'TieFp.v', 'PropsC04.v'],
                     static_files=BASE_STATIC + FP_STATIC + ['RoundFacts.v', 'FloatTok.v', 'TreeFacts.v'])
 TEXT['C04']['level'] = ('PROOF on the model for every literal outside the two recorded findings: PropsC04.C04_ReadFloat64_correctly_rounded / C04_parse_correctly_rounded: for ALL JSON number literals whose integer part has at most 800 significant digits (fraction arbitrarily long) and whose exponent has at most 5 significant digits, followed by anything that does not continue the token, ReadFloat64 / ParseJSONFloatPrefix over the REGENERATED tables consume exactly the literal and return round_ne of its exact value (Round.v: nearest, ties to even, in exact integer arithmetic; representable / half-ulp / monotone lemmas), or the range error exactly on overflow - whichever of the three paths the literal takes. Ingredients: every row of the regenerated 128-bit powers-of-ten table, log2 approximation, float64pow10, powtab and leftcheats proved exact on every run (TieFp); scanner spec (FpScan); exact path (FpExact); Eisel-Lemire sound incl. the truncated-mantissa recheck (FpEL); decimal path: shifts exact up to truncation, sticky-flag invariant Inv through every 60-bit sub-step, RoundedInteger with the flag = rounding of the exact value (FpDecTrunc, FpDecInv, FpDecRound, FpFull, FpFull2). The number leaves of the C03 tree are these values (C04_tree_numbers_correctly_rounded). The unrestricted statement parse_correct_full is REFUTED on the model (FpFacts.parse_correct_full_false): the two known findings (> 800 significant integer digits on the slow path; exponents of 6+ digits), both shared with strconv.ParseFloat. Correspondence: stage-wise hooks (scanner, exact, Eisel-Lemire, decimal), 38k (quick) / 3.1M (thorough) literals incl. ties with tails at digit 790-806 and exact subnormal ties written out in full; spec round_ne vs implementation and vs strconv.')
 TEXT['C04']['technique'] = 'Coq proof (tables by vm_compute per run; interval and sticky-flag invariants in Z) with stage-wise correspondence'
+
+# C10: totality of the float reader and of the generic value reader on the regenerated tables; C17: tree helpers
+PROPS['C10'].update(run_files=['Tie.v', 'TieWf.v', 'PropsC10.v', 'TieFp.v', 'TieFast.v', 'TieSim.v', 'PropsC02.v', 'PropsC03.v', 'PropsC10b.v'],
+                    static_files=MACH_STATIC + ['IntFacts.v', 'FpTables.v', 'FpTotal.v', 'TreeTie.v'])
+TEXT['C10']['level'] = ('PROOF on the model for every machine-backed entry point and for the two large hand-written readers: PropsC10 (Safety.machines_safe under wf_check): SkipValue, SkipValueFast, Valid, HandleArrayValues, HandleObjectValues, the literal and string machines never panic, terminate within 2*len+2 dispatches and report nil-error offsets in [0,len], for ALL inputs, ALL int64 handler offsets (C10_offsets_out_of_range: consumed offsets that do not fit are errPOutOfRange), ALL buffer contents; PropsC10b: C10_ReadFloat64_total / C10_ParseJSONFloatPrefix_total (FpTotal.v: every loop of the scanner, decimal.set, both shifts and floatBits terminates within its bound and every table index is in range, for ALL byte strings, over the REGENERATED tables) with C10_ReadFloat64_offset (offset inside the input in every case), C10_ReadValue_total (the generic reader, through TreeTie); integer readers: total by construction with proved ranges (IntFacts). Correspondence: every exported function on hostile inputs / handlers / buffers (recover + watchdog), nesting 10001/20000 in every mixture incl. sibling-shaped, 20 kB tokens, boundary exponents, exact subnormal ties, tiny capacities. One known finding (offsets for number/literal members are ignored).')
+PROPS['C17']['static_files'] = PROPS['C17']['static_files'] + ['ValueReader.v', 'TreeCompat.v']
+TEXT['C17']['level'] = ('PROOF, complete on the model: CompatFacts.compat_spec (StdLibCompatibleString = the Unicode Table 3-7 sanitiser: each byte not part of a valid sequence becomes U+FFFD, everything else unchanged), sanitize_valid / sanitize_valid_id / sanitize_idempotent / sanitize_app_valid, compat_bytes_append (StringBytes appends exactly those bytes); tree helpers (TreeCompat.v): compat_tree_spec (StdLibCompatibleValue/Slice/Map = the sanitiser mapped over every string and key at every depth, objects rebuilt last-wins), compat_tree_valid, compat_tree_id (valid trees unchanged), compat_tree_idempotent, scalars unchanged. Correspondence: all 1-byte, most 2-byte, class-wise 3/4-byte strings, destinations with every small (len,cap), trees incl. invalid keys and values under them (argument-unmodified check); oracle = encoding/json round trip.')
